@@ -1280,3 +1280,8 @@ fire('c13-method-stop-never-delivered', 'C13', P, 'Process.Solve',
      why='found by mutation sampling: the loop over the listeners is kept but the call is gone')
 fire('c19-dual-ctor-arguments-exchanged', 'C19', SD, 'SearchDataDualQueue.__init__', 'super().__init__(problem, maxlen)',
      'super().__init__(maxlen, problem)', 'R19.10', why='found by mutation sampling (argument swap)')
+dtwin('c16-trial-timer-exit-false', '*', 'seeded/twins/trial-timer-exit-returns-false.diff',
+      why='a stopwatch context manager around the evaluation whose __exit__ returns False and whose clock values stay '
+          'in attributes nobody on the search path reads (R16.8, R11.1)')
+dtwin('c03-errstate-ignore-around-objective', '*', 'seeded/twins/errstate-ignore-around-objective.diff',
+      why='np.errstate(... "ignore") around the objective call manufactures no exception (R03.10)')
